@@ -62,6 +62,21 @@ func H_C13_line() {
 	w := &c13Rec{}
 	l := New(NewTextHandler(w, NewOptions(LevelDebug, false, false)))
 	l = l.With(slog.String(str(1, "wk"), str(2, "wv"))).WithGroup(name)
+	// a further derivation below the (possibly odd) group: the prefix built by WithGroup is carried, not rebuilt
+	shape := 0
+	if pos <= 2 {
+		shape = vxPick(3)
+	}
+	base := name + "."
+	switch shape {
+	case 1:
+		l = l.With(slog.String("w2", "v2"))
+		vxReach("With below a group")
+	case 2:
+		l = l.WithGroup("H")
+		name = name + ".H"
+		vxReach("WithGroup below a group")
+	}
 	gk := str(6, "g")
 	msg := str(3, "msg")
 	l.Log(context.Background(), LevelWarn, msg,
@@ -103,6 +118,11 @@ func H_C13_line() {
 	want := []c13Tok{
 		{[]byte("time"), nil}, {[]byte("level"), []byte("WARN")}, {[]byte("msg"), []byte(msg)},
 		{[]byte(str(1, "wk")), []byte(str(2, "wv"))},
+	}
+	if shape == 1 {
+		want = append(want, c13Tok{[]byte(base + "w2"), []byte("v2")})
+	}
+	want = append(want, []c13Tok{
 		{[]byte(gp + str(4, "k")), []byte(str(5, "v"))},
 		{[]byte(gpath + str(7, "nk")), []byte("nv")},
 		{[]byte(gpath + "n"), []byte("-7")},
@@ -118,7 +138,7 @@ func H_C13_line() {
 		{[]byte(gp + "d"), []byte("1.5s")},
 		{[]byte(gp + "tmerr"), []byte("marshal failed")},
 		{[]byte(gp + "inl"), []byte("x")},
-	}
+	}...)
 	vxAssert(len(toks) == len(want), "C13: a message, key or value introduced or swallowed a token")
 	for i := range want {
 		vxAssert(string(toks[i].k) == string(want[i].k), "C13: token key differs from the attribute's dotted path")
